@@ -48,29 +48,41 @@ impl LanguageServer {
         let stdin = tokio::io::stdin();
         let mut framed_read = FramedRead::new(stdin, io::LSCodec);
 
-        phases::initialization(&mut self, &mut framed_read, iotx.clone())
+        // every phase reports whether the client sent `exit` before `shutdown`
+        let mut exit_requested = phases::initialization(&mut self, &mut framed_read, iotx.clone())
             .await
             .wrap_err("Unexpected error occured during initialization")?;
 
-        // spawn thread which handles document synchronization
-        let (doctx, docrx) = mpsc::channel(32);
-        handles.push(tokio::spawn(document::broker(
-            docrx,
-            iotx.clone(),
-            self.client_details.diagnostics,
-        )));
+        let mut doctx = None;
+        if !exit_requested {
+            // spawn thread which handles document synchronization
+            let (tx, docrx) = mpsc::channel(32);
+            handles.push(tokio::spawn(document::broker(
+                docrx,
+                iotx.clone(),
+                self.client_details.diagnostics,
+            )));
 
-        phases::main(&mut framed_read, iotx.clone(), doctx.clone())
-            .await
-            .wrap_err("Unexpected error occured during main phase")?;
+            exit_requested = phases::main(&mut framed_read, iotx.clone(), tx.clone())
+                .await
+                .wrap_err("Unexpected error occured during main phase")?;
+            doctx = Some(tx);
+        }
 
-        phases::shutdown(&mut framed_read, iotx)
-            .await
-            .wrap_err("Unexpected error occured during shutdown")?;
+        if !exit_requested {
+            phases::shutdown(&mut framed_read, iotx.clone())
+                .await
+                .wrap_err("Unexpected error occured during shutdown")?;
+        }
 
+        // let the other tasks finish, so that every response is written out
+        drop(iotx);
         drop(doctx);
         for handle in handles {
             handle.await.expect("Cannot await handle");
+        }
+        if exit_requested {
+            std::process::exit(1) // ungraceful exit
         }
         Ok(())
     }
@@ -115,7 +127,7 @@ mod phases {
         ls: &mut LanguageServer,
         framed_read: &mut FramedRead<Stdin, LSCodec>,
         iotx: Sender<Message>,
-    ) -> Result<()> {
+    ) -> Result<bool> {
         while let Some(frame) = framed_read.next().await {
             let message = frame.wrap_err("Recieved frame with error")?;
             match message {
@@ -138,7 +150,7 @@ mod phases {
                 }
                 Message::Notification(notification) => {
                     if notification.method.as_str() == Exit::METHOD {
-                        std::process::exit(1) // ungraceful exit
+                        return Ok(true); // ungraceful exit
                     }
                 }
                 Message::Response(response) => {
@@ -168,7 +180,7 @@ mod phases {
                 }
                 Message::Notification(notification) => match notification.method.as_str() {
                     Initialized::METHOD => break, // Server is properly initialized and can start working
-                    Exit::METHOD => std::process::exit(1), // ungraceful exit
+                    Exit::METHOD => return Ok(true), // ungraceful exit
                     _ => { /* drop all other notifications */ }
                 },
                 Message::Response(response) => {
@@ -176,14 +188,14 @@ mod phases {
                 }
             };
         }
-        Ok(())
+        Ok(false)
     }
 
     pub(super) async fn main(
         framed_read: &mut FramedRead<Stdin, LSCodec>,
         iotx: Sender<Message>,
         doctx: Sender<DocumentRequest>,
-    ) -> Result<()> {
+    ) -> Result<bool> {
         while let Some(frame) = framed_read.next().await {
             let message = frame.wrap_err("Recieved frame with error")?;
             match message {
@@ -201,7 +213,7 @@ mod phases {
                             let (_, response) = request.split();
                             let response = response.into_result_response(Value::Null);
                             iotx.send(Message::Response(response)).await?;
-                            return Ok(());
+                            return Ok(false);
                         }
                         GotoDeclaration::METHOD => {
                             respond!(request, features::goto::declaration, doctx.clone())
@@ -268,7 +280,7 @@ mod phases {
                         DidCloseTextDocument::METHOD => {
                             note!(notification, document::close, doctx.clone());
                         }
-                        Exit::METHOD => std::process::exit(1), // ungraceful exit
+                        Exit::METHOD => return Ok(true), // ungraceful exit
                         _ => { /* drop all other notifications */ }
                     };
                 }
@@ -277,7 +289,7 @@ mod phases {
                 }
             }
         }
-        Ok(())
+        Ok(false)
     }
 
     pub(super) async fn shutdown(
